@@ -1,7 +1,8 @@
 """C12 — attribute names in paths are written and matched faithfully.
 
 Tie: translator tables (escape chain, identifier class, anchor, keyword set) + correspondence of
-_parse_npath / _format_attr_name / _escape_nix_string / _split_attrpath with the Lean model.
+_parse_npath / _format_attr_name / _escape_nix_string / _split_attrpath / _decode_attr_name /
+_same_attr_name / _segment_name with the Lean model.
 Oracle (implementation only): names decoded from the OUTPUT CST by tree-sitter's own string pieces.
 """
 from __future__ import annotations
@@ -12,7 +13,7 @@ from .. import framework as fw
 from ..framework import hx, unhx
 from ..oracle import cstread
 
-GEN_TABLES = ("escape", "ident_re", "keywords")
+GEN_TABLES = ("escape", "ident_re", "keywords", "name_re", "name_escapes")
 
 ALPHABET = ["a", "Z", "0", "_", "'", "-", ".", '"', "\\", "$", "{", "}", " ", "\n", "\r", "\t", "é"]
 KEYWORDS = ["if", "then", "else", "assert", "with", "let", "in", "rec", "inherit", "or", "true", "null"]
@@ -106,6 +107,29 @@ def run(ctx: fw.Ctx):
             e = ["err", exc_class(exc)]
         reqs.append(["split", hx(s)])
         expect.append(e)
+    # how lookups compare name tokens: `_decode_attr_name`, `_same_attr_name`, `_segment_name` on every string
+    # taken as a token, on its quoted form (the string as a raw string body, so that every escape and `$`
+    # combination of the alphabet is read), and on the spellings `_format_attr_name` writes
+    from nix_manipulator.expressions import binding as B
+
+    dec, same = getattr(B, "_decode_attr_name", None), getattr(B, "_same_attr_name", None)
+    if dec is None or same is None:
+        ctx.tie_break("correspondence", "expressions/binding.py has no _decode_attr_name/_same_attr_name "
+                      "(the model compares names the way the repaired lookups do)")
+    else:
+        for s in names:
+            raw_q = '"' + s + '"'
+            toks = [s, raw_q, M._format_attr_name(M._NPathSegment(name=s, quoted=True))]
+            for t in toks:
+                reqs.append(["decname", hx(t)])
+                d = dec(t)
+                expect.append(["none"] if d is None else ["some", hx(d)])
+                reqs.append(["segname", hx(t)])
+                expect.append(["ok", hx(M._segment_name(t))])
+            for a, b in ((toks[0], toks[1]), (toks[0], toks[2]), (toks[1], toks[2]), (toks[2], toks[0]), (toks[0], toks[0]),
+                         (toks[1], '"' + s.replace("a", "\\a") + '"')):
+                reqs.append(["samename", hx(a), hx(b)])
+                expect.append(["ok", "t" if same(a, b) else "f"])
     replies = ctx.driver.ask_many(reqs)
     ctx.corr_checked = len(reqs)
     bad = 0
@@ -115,7 +139,8 @@ def run(ctx: fw.Ctx):
             if bad <= 5:
                 ctx.tie_break(
                     "correspondence",
-                    f"{rq[0]} disagrees on {unhx(rq[2] if rq[0] in ('npath', 'fmtname') else rq[1])!r}",
+                    f"{rq[0]} disagrees on {unhx(rq[2] if rq[0] in ('npath', 'fmtname') else rq[1])!r}"
+                    + (f" / {unhx(rq[2])!r}" if rq[0] == "samename" else ""),
                     request=rq, implementation=ex, model=got,
                 )
     ctx.count("correspondence_requests", len(reqs))
